@@ -2,7 +2,7 @@
    qParam / qNumericParam (lNumber stops at the operator: `=`, `!`, `<`, `>` are not number characters), the operator and its
    blanks as before, the path by singleJsonpathFilter.  The parser's actions then exchange the operands (the literal ranks
    above the path: Actions.swap_required) and mirror an ordering — `1<@.a` is parsed into the query of `@.a>1`. *)
-From JP Require Import Peg Grammar Text Tree Actions PegFacts PegMono PegEv FuelRules ParseFacts KeyDefs KeyParse IdxParse SliceParse UnionParse WildParse RecParse ChainParse SpacePath FunParse AggParse Frame FiltParse CmpParse CmpSpace.
+From JP Require Import Peg Grammar Text Tree Actions PegFacts PegMono PegEv FuelRules ParseFacts KeyDefs KeyParse IdxParse SliceParse UnionParse WildParse RecParse ChainParse SpacePath FunParse AggParse Frame FiltParse CmpParse CmpSpace LitParse RootOp.
 From Coq Require Import Lia.
 Local Open Scope N_scope.
 Open Scope list_scope.
@@ -104,3 +104,76 @@ Section LCmpPeg.
       + cbn [op_text List.length app lit_act op_act]. f_equal; lia.
   Qed.
 End LCmpPeg.
+
+(* ---------- a `$` path on the left: [?($.min<@.a)], [?($.x==@.a)] ---------- *)
+Definition rl39_tokens (pos : nat) (j : list rstep) (o : cmpop) (i : list rstep) : list token :=
+  right43_tokens pos j ++ left43_tokens (pos + 1 + List.length (render_steps j) + List.length (op_text o)) i ++ [TAct (op_act o)].
+
+Section RLPeg.
+  Variable isteps j : list rstep.
+  Variable t : list N.
+  Variable c : N.
+  Hypothesis Hq : qend c.
+  Hypothesis Hs : forallb rstep_ok isteps = true.
+  Hypothesis Hsj : forallb rstep_ok j = true.
+  Notation L := (List.length (render_steps isteps)).
+  Notation Lj := (List.length (render_steps j)).
+  Notation path := (64 :: render_steps isteps ++ c :: t).
+
+  Lemma lroot40 o pos : evG (PRef 40) (36 :: render_steps j ++ op_text o ++ path) pos (POk (op_text o ++ path) (pos + 1 + Lj) (right43_tokens pos j)).
+  Proof.
+    destruct (closer_op o path) as (c1 & r' & E & Hc). rewrite E.
+    eapply ev_ref; [reflexivity|]. apply ev_alt_r; [apply ev_seq_fail; apply ev_rule42_dollar|]. apply (ev_rule43_root j c1 r' pos Hsj Hc).
+  Qed.
+  Lemma lroot41 o pos : evG (PRef 41) (36 :: render_steps j ++ op_text o ++ path) pos (POk (op_text o ++ path) (pos + 1 + Lj) (right43_tokens pos j)).
+  Proof.
+    destruct (closer_op o path) as (c1 & r' & E & Hc). rewrite E.
+    eapply ev_ref; [reflexivity|]. apply ev_alt_r; [apply ev_seq_fail; apply ev_rule45_nonnum; reflexivity|]. apply (ev_rule43_root j c1 r' pos Hsj Hc).
+  Qed.
+
+  Theorem ev_rule39_rl o pos :
+    evG (PRef 39) (36 :: render_steps j ++ op_text o ++ path) pos
+        (POk (c :: t) (pos + 1 + Lj + List.length (op_text o) + 1 + L) (rl39_tokens pos j o isteps)).
+  Proof.
+    unfold rl39_tokens.
+    assert (A1fail : forall o', (o' = OLt \/ o' = OLe \/ o' = OGt \/ o' = OGe) ->
+              evG (PSeq (PRef 40) (PSeq (PRef 58) (PAlt (PSeq (PLit [61; 61]) (PSeq (PRef 58) (PSeq (PRef 40) (PAct 28))))
+                                                       (PSeq (PLit [33; 61]) (PSeq (PRef 58) (PSeq (PRef 40) (PAct 29)))))))
+                  (36 :: render_steps j ++ op_text o' ++ path) pos PFail).
+    { intros o' Ho. eapply ev_seq_fail2; [apply lroot40|]. eapply ev_seq_fail2; [apply (lspace_op isteps t c)|].
+      destruct Ho as [E|[E|[E|E]]]; subst o'; cbn [op_text app]; apply ev_alt_r; apply ev_seq_fail; apply (ev_lit_fail G); reflexivity. }
+    pose proof (lop_then_right isteps t c) as Hop. pose proof (rpath40 isteps t c Hq Hs) as R40. pose proof (rpath41 isteps t c Hq Hs) as R41.
+    pose proof (lspace_op isteps t c) as Hsp.
+    eapply ev_ref; [reflexivity|]. destruct o.
+    - apply ev_alt_l. eapply ev_conv.
+      + eapply ev_seq_ok; [apply lroot40| |reflexivity]. eapply ev_seq_ok; [apply Hsp| |reflexivity].
+        apply ev_alt_l. apply (Hop 40%nat OEq _ 28%nat R40).
+      + cbn [op_text List.length app op_act]. f_equal; lia.
+    - apply ev_alt_l. eapply ev_conv.
+      + eapply ev_seq_ok; [apply lroot40| |reflexivity]. eapply ev_seq_ok; [apply Hsp| |reflexivity].
+        apply ev_alt_r; [apply ev_seq_fail; apply (ev_lit_fail G [61; 61]); reflexivity|]. apply (Hop 40%nat ONe _ 29%nat R40).
+      + cbn [op_text List.length app op_act]. f_equal; lia.
+    - apply ev_alt_r; [apply (A1fail OLt); auto|]. apply ev_alt_l. eapply ev_conv.
+      + eapply ev_seq_ok; [apply lroot41| |reflexivity]. eapply ev_seq_ok; [apply Hsp| |reflexivity].
+        apply ev_alt_r; [apply ev_seq_fail; apply (ev_lit_fail G [60; 61]); reflexivity|].
+        apply ev_alt_l. apply (Hop 41%nat OLt _ 31%nat R41).
+      + cbn [op_text List.length app op_act]. f_equal; lia.
+    - apply ev_alt_r; [apply (A1fail OLe); auto|]. apply ev_alt_l. eapply ev_conv.
+      + eapply ev_seq_ok; [apply lroot41| |reflexivity]. eapply ev_seq_ok; [apply Hsp| |reflexivity].
+        apply ev_alt_l. apply (Hop 41%nat OLe _ 30%nat R41).
+      + cbn [op_text List.length app op_act]. f_equal; lia.
+    - apply ev_alt_r; [apply (A1fail OGt); auto|]. apply ev_alt_l. eapply ev_conv.
+      + eapply ev_seq_ok; [apply lroot41| |reflexivity]. eapply ev_seq_ok; [apply Hsp| |reflexivity].
+        apply ev_alt_r; [apply ev_seq_fail; apply (ev_lit_fail G [60; 61]); reflexivity|].
+        apply ev_alt_r; [apply ev_seq_fail; apply (ev_lit_fail G [60]); reflexivity|].
+        apply ev_alt_r; [apply ev_seq_fail; apply (ev_lit_fail G [62; 61]); reflexivity|].
+        apply (Hop 41%nat OGt _ 33%nat R41).
+      + cbn [op_text List.length app op_act]. f_equal; lia.
+    - apply ev_alt_r; [apply (A1fail OGe); auto|]. apply ev_alt_l. eapply ev_conv.
+      + eapply ev_seq_ok; [apply lroot41| |reflexivity]. eapply ev_seq_ok; [apply Hsp| |reflexivity].
+        apply ev_alt_r; [apply ev_seq_fail; apply (ev_lit_fail G [60; 61]); reflexivity|].
+        apply ev_alt_r; [apply ev_seq_fail; apply (ev_lit_fail G [60]); reflexivity|].
+        apply ev_alt_l. apply (Hop 41%nat OGe _ 32%nat R41).
+      + cbn [op_text List.length app op_act]. f_equal; lia.
+  Qed.
+End RLPeg.
